@@ -30,8 +30,9 @@ def gen_case(run, i):
         sw, sh = rng.randint(8, 16), rng.randint(8, 16)
         rx0, rytop = ref.x0, ref.ytop
         sx0, sytop = rx0 + 3 * pr + rng.randrange(0, pr), rytop - 2 * pr - rng.randrange(0, pr)
-        if family != 'dyadic' and pr > 1:
-            sx0, sytop = rx0 + 3 * pr + rng.randrange(1, pr), rytop - 2 * pr - rng.randrange(1, pr)
+        if rasters.noisy_edges(family, ps, pr) and pr > 1:
+            sx0 = rx0 + 3 * pr + rasters.offgrid_offset(rng, family, ps, pr)
+            sytop = rytop - 2 * pr - rasters.offgrid_offset(rng, family, ps, pr)
         rw = -(-(sx0 + sw * ps - rx0) // pr) + 3
         rh = -(-(rytop - (sytop - sh * ps)) // pr) + 2
         src = rasters.Grid(sx0, sytop, ps, ps, sw, sh, src.unit)
